@@ -11,7 +11,7 @@ For a loop-free graph every edge at i is one entry of row i (representation inva
 the schema of lean/Encoders.lean, namespace C06, where `enc_iff_onecycle` proves (graphs with at least one vertex):
 satisfiable  <=>  every vertex meets 0 or 2 active edges and any two visited vertices are joined along active edges
 (no active edge, or exactly one simple cycle), and `passed_iff_visited`: is_passed is true exactly at the visited
-vertices.  A graph with no vertex at all is outside the lemma (the posted `count_true([]) == 1` is unsatisfiable there).
+vertices.  A graph with no vertex at all is outside the lemma: the real function refuses it (Solver.int_array(0, 0, -1) raises ValueError).
 """
 import z3 as _z3
 
